@@ -1,5 +1,5 @@
 """C07 — numbers are parsed exactly: table oracles and sign/finiteness flow."""
-import struct, collections
+import struct, collections, re
 from ..facts import callee_is, op_local, op_place, op_int, op_bytes, norm_path, FactError
 from ..analysis import backward_slice, control_deps, bool_switch_edges, forward_derived, rv_places
 from .. import oracles
@@ -668,9 +668,47 @@ MODULAR_AUDIT = {
 }
 
 
+PLAIN_U64_AUDIT = {
+    # plain (panicking in debug, wrapping in release) u64 `*` / `+` that the interval analysis cannot bound, per function of
+    # the digit-accumulating front end: (sites audited, the argument that bounds them)
+    ("parse_number", "Mul"): (1, "19-digit re-scan: digits_cnt < 19 keeps the value below 10^19"),
+    ("parse_number", "Add"): (1, "19-digit re-scan (same)"),
+    ("parse_number_fraction", "Mul"): (2, "at most FLOATING_LONGEST_DIGITS significant digits are accumulated"),
+    ("parse_number_fraction", "Add"): (2, "at most FLOATING_LONGEST_DIGITS significant digits are accumulated"),
+    ("parse_float", "Add"): (1, "significant + 1 of a value below 10^19"),
+    ("parse_floating_normal_fast", "Add"): (2, "carry of the 128-bit product (after yyjson); lo + hi2 == 2^64 - 1 would be needed to overflow"),
+}
+
+
 def r07_10(ctx):
     """modular arithmetic in the number conversion is confined to the audited sites, and every overflow flag is consumed"""
+    from ..intervals import Intervals, ty_range
     prog = ctx.prog()
+    plain = collections.Counter()
+    pwhere = {}
+    for f in prog.fns.values():
+        if f.crate != "sonic_number" or not re.match(r"^sonic_number::parse_\w+$", norm_path(f.id)):
+            continue
+        iv = None
+        for b, i, s in f.assigns():
+            rv = s["rv"]
+            if rv["k"] == "binop" and rv["op"] in ("Mul", "Add", "MulWithOverflow", "AddWithOverflow"):
+                iv = iv or Intervals(f)
+                if (iv.op_ty(rv["a"]) or iv.op_ty(rv["b"])) != "u64":
+                    continue
+                st = iv.before_stmt(b, i)
+                if st is None:
+                    continue
+                r, ov = iv.arith(rv["op"], iv.op_iv(st, rv["a"]), iv.op_iv(st, rv["b"]), ty_range("u64"))
+                if ov:
+                    k = (f.name, rv["op"][:3])
+                    plain[k] += 1
+                    pwhere.setdefault(k, f.loc(s.get("ln")))
+    for k, c in sorted(plain.items()):
+        allowed, why = PLAIN_U64_AUDIT.get(k, (0, ""))
+        ctx.ob("R07.10", f"plain-u64-arithmetic:{k[0]}:{k[1]}", c <= allowed, pwhere[k],
+               f"{c} site(s) the interval analysis cannot bound, audited {allowed}: {why}" if c <= allowed else
+               f"{c} unbounded u64 {k[1]} site(s) in {k[0]}, {allowed} audited: the significand can overflow (panic with overflow checks, silent wrap-around without)")
     cnt = collections.Counter()
     where = {}
     for f in prog.fns.values():
